@@ -302,6 +302,10 @@ def programs(tier: str) -> list[dict]:
     progs += list(P.fam_pad())
     for p in progs:
         p["outs"] = {"out0": p["outs"]["out"]}
+    # how scalar constants are rendered (never thinned out)
+    for p in P.fam_scalars():
+        p["outs"] = {("out0" if k == "out" else k): v for k, v in p["outs"].items()}
+        progs.append(p)
     n = 1200 if tier == "quick" else 20000
     for k in range(n):
         progs.append(progspace.random_program(rng, f"r{k}", int(rng.integers(1, 9))))
@@ -349,6 +353,9 @@ def main(tier: str, only: list[dict] | None = None) -> int:
                                "sub_with_np_scalar": any(
                                    c["op"] == "sub" and any(isinstance(c.get(k), dict)
                                                             and "np" in c[k] for k in "ab")
+                                   for c in by_id[r["id"]]["calls"]),
+                               "np_scalar_left": any(
+                                   isinstance(c.get("a"), dict) and "np" in c["a"]
                                    for c in by_id[r["id"]]["calls"]),
                                "has_prod": any(c["op"] == "prod"
                                                for c in by_id[r["id"]]["calls"])})
